@@ -16,7 +16,7 @@ Extraction "model.ml"
   guard_op flag_soundb meta_inv_obs guard_slice
   step_model step_spec zstep_model zstep_spec zguard zreduce_axes_after
   empty_pstate pstep_T pstep_UT pstep_transpose p_slices obs_model inv_model obs_spec ntens_model ntens_spec empty_store empty_sstate
-  shape_concat shape_repeat
+  shape_concat shape_repeat set_window logical
   window ser_model tv_logical tv_logical_mask tv_masked carries_mask print_shape parse_shape
   k_is_masked k_setmask k_reset k_mask_from_slice k_mask_from_dense with_soft k_masked pred_fn k_reduce k_runs k_edges k_clone k_filled k_filled_inplace
   k_transpose k_T k_slice k_materialize k_logical k_logical_mask k_validity k_binop k_binop_unsafe k_binop_reuse k_binop_incr z_within mt_len mt_size
